@@ -39,6 +39,34 @@ Proof.
   - split; [intros _; right; right; eauto|reflexivity].
 Qed.
 
+(* the third alternative above never occurs for the bundled data: every value of likelySubtags.json has the
+   three-subtag shape (a finite check over the dictionary regenerated on this run, evaluated by the kernel), and
+   whatever first_hit returns is a value of the dictionary.  So "unchanged" is reported EXACTLY when language,
+   script and region are all present or no entry matches - the wording of the statement *)
+Definition value_parses (e : bytes * bytes) : bool :=
+  match parse_value (snd e) with Some _ => true | None => false end.
+Theorem C06_every_value_is_a_full_triple : forallb value_parses the_dict = true.
+Proof. vm_compute. reflexivity. Qed.
+Lemma first_hit_In ks (d : dict) v : first_hit ks d = Some v -> exists k, In (k, v) d.
+Proof.
+  induction ks as [|k ks IH]; cbn [first_hit]; [discriminate|].
+  destruct (dlookup k d) as [w|] eqn:E; [|exact IH].
+  intros H. injection H as <-. exists k. apply dlookup_In. exact E.
+Qed.
+Theorem C06_unchanged_exactly : forall l s r, wf_triple l s r = true ->
+  (maximize the_tables l s r = Ok None <->
+   (s_is_some l && s_is_some s && s_is_some r = true \/ first_hit (candidates l s r) the_dict = None)).
+Proof.
+  intros l s r W. rewrite (C06_unchanged_iff l s r W). split.
+  - intros [H|[H|(v & Hv & Hp)]]; [left; exact H|right; exact H|exfalso].
+    destruct (first_hit_In _ _ _ Hv) as [k Hin].
+    pose proof (proj1 (forallb_forall _ _) C06_every_value_is_a_full_triple (k, v) Hin) as Hq.
+    unfold value_parses in Hq. cbn [snd] in Hq. rewrite Hp in Hq. discriminate Hq.
+  - intros [H|H]; [left; exact H|right; left; exact H].
+Qed.
+Print Assumptions C06_every_value_is_a_full_triple.
+Print Assumptions C06_unchanged_exactly.
+
 (* the executable specifications of the likely-subtags suite that judge the implementation in the correspondence
    run - the dictionary reference for maximize / minimize (C06-C08), the CLDR direction facts (C14), the row-by-row
    and length comparison of the compiled statics with the CLDR data and the advertised version (C18) - are
